@@ -15,7 +15,7 @@ CHECKS = {
         "checkpoint horizon implies every non-reward input is unspent at the block's parent, carries a real signature verifying "
         "under the spent output's key over the transaction with signatures blanked, and no reference repeats in the block "
         "(C01_accept_sound); the signed encoding determines all references and outputs (C01_signed_message_complete); on every "
-        "chain of every reachable state the stored unspent set is the successful replay of that chain (C01_chain_replay).",
+        "chain of every reachable state the stored unspent set is the successful replay of that chain (C01_chain_replay). C01_accept_sound_by_position: the same for every block POSITIONED above the horizon (parent height + 1), whatever height it declares (after fix 456af3d).",
    note="Hand model tied by a differential check: generated block trees x 20 spend-rule mutants (re-assembled with valid merkle "
         "root, evidence, proof of work) through the real add_block and the extracted model, plus an independent property oracle "
         "(harness/spec.py). 'Prior state left exactly as it was' is a tie obligation (object digests). Crypto = oracles.",
@@ -25,7 +25,7 @@ CHECKS = {
    text="Theorems: what acceptance implies about values (C02_rules), the unspent total after an accepted block is at most the "
         "parent's plus that height's subsidy (C02_step), along every validated history the unspent total at every block is "
         "bounded by the cumulative subsidy (C02_supply), and with the constants regenerated from params.py never exceeds "
-        "2,099,999,986,350,000 (C02_max, via C16). Unbounded Python integers = N/Z.",
+        "2,099,999,986,350,000 (C02_max, via C16). C02_step_by_position: the step bound under the position premise. Unbounded Python integers = N/Z.",
    note="Same tie as C01 with the value mutants (reward +1, fee +1, fee twice, fee from another fork's state, zero, over-limit, "
         "2^64-1, overspend) and halving boundaries reached with a patched test halving interval.",
    technique="Coq proof (value conservation invariant over map folds) + extracted-model correspondence on mutant blocks",
@@ -50,12 +50,12 @@ CHECKS = {
    design="6/C04"),
  'C05': dict(
    text="Theorems: acceptance implies id below target, the prescribed target, height = parent+1 = reward height, time window, "
-        "evidence = recomputed evidence (C05_header_rules); byte comparison = numeric comparison; the prescribed target is the "
+        "evidence = recomputed evidence (C05_header_rules; C05_header_rules_by_position under 'parent height + 1 above the horizon'; C05_height_is_position_everywhere: on either side of the horizon an accepted block's height is its parent's plus one -- fix 456af3d); byte comparison = numeric comparison; the prescribed target is the "
         "parent's off a boundary and min(2^256-1, T*elapsed/span) integer-exact on one (C05_retarget_spec); bridge lemmas tie the "
         "model to the source text of calculate_new_target / select_block_height regenerated on every run, and the shipped "
         "constants are 10,080 / 1,209,600 / 30; the chain sampler always returns exactly the requested bytes.",
    note="Tie: translator + bridge lemmas for the arithmetic; differential check with header-rule mutants on chains crossing "
-        "retarget boundaries on both sides of forks (test period 3-6), incl. targets derived from the other branch.",
+        "retarget boundaries on both sides of forks (test period 3-6), incl. targets derived from the other branch, evidence sampled from a sibling branch, chains with a checkpoint horizon inside them and blocks that merely declare a height below it, every rejected block offered twice.",
    technique="Coq proof + translator bridge lemmas + extracted-model correspondence on header mutants",
    design="6/C05"),
  'C06': dict(
@@ -69,12 +69,12 @@ CHECKS = {
    design="6/C06"),
  'C18': dict(
    text="Theorems over the checkpoint table and horizon regenerated from cheating.py: at every listed height a block passes "
-        "in-state validation iff its id is the listed one; table well-formed; regenerated genesis bytes decode canonically to a "
+        "in-state validation only if its id is the listed one, and if it has that id and sits at that position it passes; an accepted block's height is its parent's plus one on either side of the horizon, a block merely DECLARING a height below the horizon is rejected (C18_accepted_height_is_position, C18_declared_height_off_position_rejected; the shipped shortcut is refuted: C18_declared_height_shortcut_refuted, fix 456af3d); table well-formed; regenerated genesis bytes decode canonically to a "
         "height-0 block paying 10^9. Recorded real blocks: executed with the real scrypt (ids, re-encoding, full validation, also "
         "while a competing branch is the head) -- execution of finite data, not a theorem.",
    note="partial by nature for the real-network clause (no Gallina scrypt). Tie: all 327 heights x right/wrong ids through the "
         "real validate_block_in_coinstate and the model; generated chains under a test horizon with fully valid forks at "
-        "checkpointed heights.",
+        "checkpointed heights; blocks declaring heights 1..163000 on the real head under the shipped constants.",
    technique="Coq proof over regenerated table + execution of recorded blocks with real scrypt + extracted-model correspondence",
    design="6/C18"),
  'C08': dict(
@@ -121,15 +121,15 @@ CHECKS = {
  'C13': dict(
    text="Theorems over the node model: PoolInv (every pending tx valid at the head, pairwise no shared output, no duplicate) is "
         "preserved by every step for every interleaving of submissions and head changes incl. reorganisations; admission requires "
-        "by-itself validity, validity at head and no conflict; after a head change the pool is exactly the still-valid sub-list.",
+        "by-itself validity, validity at head and no conflict; after a head change the pool is exactly the still-valid sub-list. Two threads and one lock (small-step interleavings): with admission and head installation as critical sections every complete interleaving equals a merge of the sections run sequentially and keeps PoolInv (C13_locked_threads_linearise / _preserve_invariant); validation outside the critical section is refuted (C13_unlocked_admission_refuted).",
    note="tx validity at a head and conflicts are oracle inputs computed with the real validators; tie = real ChainManager and "
-        "handlers in simnet under random interleavings incl. fork switches; independent validity oracle after every event.",
+        "handlers in simnet under random interleavings incl. fork switches; independent validity oracle after every event; three two-thread probes hold the admitting thread after each validation step while another thread installs a conflicting head.",
    technique="Coq invariant proof over node state machine + simulator correspondence with independent pool oracle",
    design="6/C13"),
  'C14': dict(
    text="Theorems over the selection model of create_spend_transaction: exact amount, exact change iff non-zero, inputs distinct / "
         "owned / unused, greedy minimal prefix; failure iff unused holdings < amount + fee and then nothing changes; no reference "
-        "selected twice across any sequence; the pre-fix behaviour refuted. Validity of the signed transaction is tied by the "
+        "selected twice across any sequence, also when the ledger view differs at every request (C14_sequences_across_head_changes; a record pruned to the head is refuted); the pre-fix behaviour refuted. Validity of the signed transaction is tied by the "
         "node's own validation in the check (needs verify(sign) = true).",
    note="partial: consensus validity of the returned transaction is checked, not proved; known finding: more inputs than fit in "
         "one transaction.",
@@ -155,9 +155,9 @@ CHECKS = {
  'C20': dict(
    text="partial. Theorems over the dispatch model: for every byte string read from a peer the shared state afterwards is exactly "
         "the result of the successfully handled frames; every invariant preserved by the handlers' success path survives arbitrary "
-        "input; a malformed first frame changes nothing and closes only that connection.",
+        "input; a malformed first frame changes nothing and closes only that connection; no list decode yields more elements than bytes received and a declared count above the remaining input is rejected (C20_protocol_lists_bounded).",
    note="Which Python/stdlib/ecdsa/sqlite operations raise, and that all of it is caught, is observed by bulk adversarial input "
-        "(corrupted/truncated/spliced traffic, unknown types, protocol order, invalid objects, random bytes) with bystanders, not "
+        "(corrupted/truncated/spliced traffic, unknown types, protocol order, invalid objects, random bytes, declared counts up to 2^63 under a 4 s stall guard) with bystanders, not "
         "proved.",
    technique="Coq proof over dispatch model + bulk adversarial sessions against a real node with bystander peers",
    design="6/C20"),
